@@ -51,7 +51,17 @@ static void setup_parser(void)
     vx_p.more_ = true; vx_p.cursor_mode_ = nondet_bool(); vx_p.nesting_depth_ = nondet_int(); vx_p.max_nesting_depth_ = nondet_int();
     vx_events = 0; vx_pushes = 0; vx_src_error = nondet_bool(); vx_utf8_ok = nondet_bool(); vx_span_avail = nondet_u64();
 }
-void h_read_item(void) { setup_parser(); int ec = 0; read_item(&vx_p, &ec); }
+void h_read_item(void)
+{
+    setup_parser(); int ec = 0;
+#ifdef VX_T_LO
+    __CPROVER_assume(!vx_src_error && vx_src_pos < vx_src_n && vx_src[vx_src_pos] >= VX_T_LO && vx_src[vx_src_pos] <= VX_T_HI);
+#endif
+#ifdef VX_T_EMPTY
+    __CPROVER_assume(vx_src_error || vx_src_pos == vx_src_n);
+#endif
+    read_item(&vx_p, &ec);
+}
 void h_begin_array(void) { setup_parser(); int ec = 0; begin_array(&vx_p, nondet_u8(), &ec); }
 void h_begin_object(void) { setup_parser(); int ec = 0; begin_object(&vx_p, nondet_u8(), &ec); }
 #endif
